@@ -4,6 +4,7 @@ every run; the RNG seam is owned for the stochastic function."""
 from gvsim import model as M
 from gvsim import views as V
 from gvsim.kernel import stream
+from gvsim.props import common
 from gvsim.lib import COLORS, HEADINGS, mk_state, sha, world_of, wkey
 from gvsim.sim import Client, Raised, Sim, inject_rng, sut
 
@@ -57,9 +58,11 @@ def generate(seed, run, tier):
         vis = {'name': name}
         if name == 'raytracing' and r.random() < 0.7:
             vis.update(r.choice([{'threshold': 2}, {'threshold': 3}, {'absolute_counts': False, 'threshold': 0.5}, {'absolute_counts': False, 'threshold': 1.0}, {'absolute_counts': True, 'threshold': 1}]))
-    return {'property': PROP, 'seed': seed, 'run': run, 'tier': tier, 'debug': r.random() < 0.5, 'world': world,
+    rec = {'property': PROP, 'seed': seed, 'run': run, 'tier': tier, 'debug': r.random() < 0.5, 'world': world,
             'obs': {'name': name, 'area': area}, 'vis': vis, 'via_factory': r.random() < 0.5, 'ops': ops,
             'alias_objects': stream(seed, PROP, run, 'alias').random() < 0.15}
+    rec.update(common.knobs(PROP, seed, run))
+    return rec
 
 
 def execute(record, ctx):
@@ -72,6 +75,7 @@ def execute(record, ctx):
     obs_f = V.mk_obs_function(name, area, record['via_factory'], record.get('vis'))
     if record.get('vis'):
         ctx.probe('from_visibility_with_built_visibility_function')
+    common.probe_knobs(record, ctx)
     if record['world'].get('monotype'):
         ctx.probe('one_object_class_world')
     state = mk_state(record['world'])
